@@ -182,12 +182,17 @@ Mine(rq) == rq.h \in 1..MaxTx => rq.via = txs[rq.h].via
 
 \* rq.fail: the storage layer refuses the batch (e.g. a log rotation that does not finish): nothing becomes visible, the
 \* transaction is over all the same, its lock released, its handle gone
+\* A read-write transaction may have been begun BEFORE the node became read-only (SetRO below): its writes were buffered,
+\* the mutation happens at commit - on a read-only node that commit is refused ("rocommit": nothing becomes visible, the
+\* transaction is over, its lock released, its handle gone; not a Rejection in the sense of RejectedHasNoEffect).
+RefusedByMode(h) == readOnly /\ txs[h].mode = "rw" /\ txs[h].buf # EmptyBuf
 Commit(rq) == /\ rq.op = "commit" /\ Mine(rq)
               /\ IF ~Open(rq.h) THEN Reject(rq, "nohandle")
-                 ELSE /\ rq.fail => txs[rq.h].mode = "rw" /\ txs[rq.h].buf # EmptyBuf
-                      /\ db' = IF rq.fail THEN db ELSE View(rq.h)
+                 ELSE /\ rq.fail => txs[rq.h].mode = "rw" /\ txs[rq.h].buf # EmptyBuf /\ ~readOnly
+                      /\ db' = IF rq.fail \/ RefusedByMode(rq.h) THEN db ELSE View(rq.h)
                       /\ txs' = [txs EXCEPT ![rq.h].mode = "dead", ![rq.h].buf = EmptyBuf]
-                      /\ Reply(rq, IF rq.fail THEN [Rsp0 EXCEPT !.ok = FALSE, !.err = "commitfail"] ELSE Rsp0)
+                      /\ Reply(rq, IF rq.fail THEN [Rsp0 EXCEPT !.ok = FALSE, !.err = "commitfail"]
+                                   ELSE IF RefusedByMode(rq.h) THEN [Rsp0 EXCEPT !.ok = FALSE, !.err = "rocommit"] ELSE Rsp0)
                       /\ UNCHANGED <<nh, readOnly>>
 
 Rollback(rq) == /\ rq.op = "rollback" /\ Mine(rq)
@@ -227,7 +232,7 @@ NodeInfo(rq) == /\ rq.op = "nodeinfo"
 -----------------------------------------------------------------------------
 (* C16: the replication applier's entry points (replication.EngineApplier.Apply -> PutInternal / DeleteInternal,    *)
 (* ApplyBatchInternal) work whatever readOnly says and whoever holds the transaction lock; SetReadOnly is the       *)
-(* lifecycle switch (assumed to be thrown while no transaction is open).                                            *)
+(* lifecycle switch; it may be thrown while transactions are open (a node demoted to replica under load).           *)
 
 ApplierOps == {"apply_put", "apply_merge", "apply_del", "apply_batch"}   \* a merge entry is applied like a put
 ApplyInternal(rq) ==
@@ -237,7 +242,7 @@ ApplyInternal(rq) ==
              [] OTHER -> ApplyOps(db, rq.ops)
   /\ Reply(rq, Rsp0) /\ UNCHANGED <<txs, nh, readOnly>>
 
-SetRO(rq) == /\ rq.op = "setro" /\ Writers = {} /\ Readers = {}
+SetRO(rq) == /\ rq.op = "setro"
              /\ readOnly' = rq.ro /\ Reply(rq, Rsp0) /\ UNCHANGED <<db, txs, nh>>
 
 \* replication.Manager.Stop: the replication service goes away; the data, the transactions and the MODE stay as they are
@@ -330,7 +335,6 @@ TypeOK == /\ db \in [StoreKeys -> StoreVals \cup {Tomb}]
                                  /\ txs[h].buf \in [StoreKeys -> StoreVals \cup {Tomb, NoBuf}]
                                  /\ (h > nh <=> txs[h].mode = "free")
 Mutex == Cardinality(Writers) <= 1 /\ (Writers # {} => Readers = {})
-NoWriterOnReplica == readOnly => Writers = {}
 
 \* C19: a request answered with one of the rejections changes nothing - not the data, not any transaction, not the
 \* handle table (a failed commit is not a rejection: it ends the transaction)
@@ -374,7 +378,12 @@ EmbeddedStep(Batches) ==
   \/ readOnly' # readOnly /\ UNCHANGED <<db, txs, nh>>
 
 \* C16: on a read-only node no client request changes the data, and every mutation attempt is answered with an error
-ReadOnlyRejectsMutators == [][readOnly /\ rsp'.rq.op \in ClientOps => db' = db /\ (IsMutation(rsp'.rq) => ~rsp'.ok)]_vars
+\* (a write inside a read-write transaction that was begun before the switch is only buffered: the error arrives at commit)
+ReadOnlyRejectsMutators ==
+  [][readOnly /\ rsp'.rq.op \in ClientOps =>
+        /\ db' = db
+        /\ IsMutation(rsp'.rq) /\ rsp'.ok => rsp'.rq.op \in {"txput", "txdel"} /\ txs[rsp'.rq.h].mode = "rw"
+        /\ rsp'.rq.op = "commit" /\ Open(rsp'.rq.h) /\ txs[rsp'.rq.h].mode = "rw" /\ txs[rsp'.rq.h].buf # EmptyBuf => ~rsp'.ok]_vars
 \* C16: the applier's entry points do what they are asked, whatever the mode
 ApplyWorks == [][rsp'.rq.op \in ApplierOps => rsp'.ok]_vars
 \* C16: the node information is the truth
